@@ -13,8 +13,20 @@ NAMES = ['a', 'b', 'c', 'a', 'b', 'd', 'a', 'c', 'b', 'e', 'a', 'b', 'c', 'd']
 class World:
     """The real objects of one history."""
 
-    def __init__(self, ids, nw, names=None, ranks=None):
+    def __init__(self, ids, nw, names=None, ranks=None, sub=False):
         from pjplan import Task, WBS
+        self.BaseTask = Task
+        if sub:
+            # the caller works with an own subclass of Task: `prio` has a class-level default that some instances
+            # override, `label` is computed.  Everything the library does with tasks must work for these too.
+            class SubTask(Task):
+                prio = 1
+
+                @property
+                def label(self):
+                    return '%s/%s' % (self.name, self.prio)
+            Task = SubTask
+        self.sub = sub
         self.Task, self.WBS = Task, WBS
         self.ts = []
         self.ws = [WBS() for _ in range(nw)]
@@ -22,7 +34,10 @@ class World:
         for k, tid in enumerate(ids):
             nm = (names or NAMES)[k % len(names or NAMES)]
             rk = (ranks[k % len(ranks)] if ranks else (None if k % 4 == 3 else k % 3))
-            self.add(Task(tid, nm, rank=rk))
+            if sub and k % 2 == 0:
+                self.add(Task(tid, nm, rank=rk, prio=(k // 2) % 3))
+            else:
+                self.add(Task(tid, nm, rank=rk))
         self.widx = {id(w): i for i, w in enumerate(self.ws)}
         self.held_mode = False
         self.held = {}
@@ -48,8 +63,24 @@ class World:
         return h[0] if (h[1] + self.phase) % 2 == 1 else fetch()
 
     def attrs(self):
-        return {'id': [t.id for t in self.ts], 'name': [t.name for t in self.ts],
-                'rank': [t.__dict__.get('rank') for t in self.ts]}
+        a = {'id': [t.id for t in self.ts], 'name': [t.name for t in self.ts],
+             'rank': [t.__dict__.get('rank') for t in self.ts]}
+        if self.sub:
+            a['prio'] = [getattr(t, 'prio', None) for t in self.ts]
+            a['label'] = [getattr(t, 'label', None) for t in self.ts]
+        return a
+
+    def foreign(self, marker):
+        """what a caller may pass by mistake where a task is expected"""
+        if marker == 'F:id':
+            return self.ts[0].id
+        if marker == 'F:str':
+            return 'a'
+        if marker == 'F:wbs':
+            return self.ws[0]
+        if marker == 'F:dict':
+            return {'id': 1}
+        return object()
 
 
 class SnapshotError(Exception):
@@ -61,31 +92,40 @@ def snapshot(world):
     getters are exercised separately because they do not terminate on a broken state)."""
     # discover objects that are not in the universe yet (half-built tasks of a failed constructor)
     grew = True
+    alien = []
+    is_task = lambda x: isinstance(x, world.BaseTask)
     while grew:
         grew = False
         for t in list(world.ts):
             rel = [t.parent] + list(t.children) + list(t.predecessors) + list(t.successors)
             for x in rel:
-                if x is not None and id(x) not in world.index:
+                if x is not None and not is_task(x):
+                    alien.append(type(x).__name__)
+                elif x is not None and id(x) not in world.index:
                     world.add(x)
                     grew = True
         for w in world.ws:
             for x in w.roots:
-                if id(x) not in world.index:
+                if not is_task(x):
+                    alien.append(type(x).__name__)
+                elif id(x) not in world.index:
                     world.add(x)
                     grew = True
+        if alien:
+            break
     g = G([t.id for t in world.ts], len(world.ws))
+    g.alien = sorted(set(alien))
     ix = world.index
     for k, t in enumerate(world.ts):
         p = t.parent
-        g.parent[k] = None if p is None else ix[id(p)]
-        g.children[k] = [ix[id(c)] for c in t.children]
-        g.preds[k] = [ix[id(c)] for c in t.predecessors]
-        g.succs[k] = [ix[id(c)] for c in t.successors]
+        g.parent[k] = None if p is None or not is_task(p) else ix[id(p)]
+        g.children[k] = [ix[id(c)] for c in t.children if is_task(c)]
+        g.preds[k] = [ix[id(c)] for c in t.predecessors if is_task(c)]
+        g.succs[k] = [ix[id(c)] for c in t.successors if is_task(c)]
         w = t.wbs
         g.owner[k] = None if w is None else world.widx.get(id(w), -1)
     for i, w in enumerate(world.ws):
-        g.roots[i] = [ix[id(c)] for c in w.roots]
+        g.roots[i] = [ix[id(c)] for c in w.roots if is_task(c)]
     return g
 
 
@@ -122,12 +162,12 @@ def concretise(op, n, nw, shift=0, last_only=False):
         op[2] = ((o2 + shift) % n) if o2 >= 0 else -((-o2 - 1) % nw) - 1
     if kind in ARG_TASK_POS:
         for p in ARG_TASK_POS[kind]:
-            if op[p] is not None:
+            if op[p] is not None and not graph.is_foreign(op[p]):
                 op[p] = (op[p] + shift) % n
     if kind in SEQ_KINDS:
         seq = list(op[2])
         for i, x in enumerate(seq):
-            if x is not None:
+            if x is not None and not graph.is_foreign(x):
                 s = shift if (not last_only or i == len(seq) - 1) else 0
                 seq[i] = (x + s) % n
         op[2] = seq
@@ -140,7 +180,7 @@ def concretise(op, n, nw, shift=0, last_only=False):
             op[2] = (op[2] + shift) % n
         for p in (3, 4, 5):
             if op[p] is not None:
-                op[p] = [None if x is None else (x + shift) % n for x in op[p]]
+                op[p] = [x if x is None or graph.is_foreign(x) else (x + shift) % n for x in op[p]]
     return tuple(tuple(x) if isinstance(x, list) else x for x in op)
 
 
@@ -186,7 +226,7 @@ def run_op(world, op):
     """Execute a concrete op on the real objects.  Returns the call's return value."""
     ts, ws = world.ts, world.ws
     k = op[0]
-    T = lambda i: ts[i]
+    T = lambda i: world.foreign(i) if graph.is_foreign(i) else ts[i]
 
     def own(i):
         return ts[i] if i >= 0 else ws[-i - 1]
@@ -202,7 +242,7 @@ def run_op(world, op):
         return world.view('succs', i, lambda: ts[i].successors)
 
     def seq(s):
-        return [None if x is None else ts[x] for x in s]
+        return [None if x is None else T(x) for x in s]
 
     def arg(lst):
         # the documented argument type is Iterable: a one-shot iterator is as good as a list
@@ -415,7 +455,7 @@ def run_history(case, skip=None):
     returns an id is not executed (known finding excluded by construction) and counted.
     """
     rep = Report()
-    world = World(case['ids'], case.get('nw', 3), case.get('names'), case.get('ranks'))
+    world = World(case['ids'], case.get('nw', 3), case.get('names'), case.get('ranks'), sub=bool(case.get('sub')))
     world.held_mode = bool(case.get('held'))
     world.phase = 1 if case.get('held') == 2 else 0
     world.iter_forms = bool(case.get('iter'))
@@ -501,7 +541,7 @@ def run_history(case, skip=None):
         if exc is not None:
             if isinstance(exc, RecursionError):
                 rep.viol.append(('C01', 'C01:call-overflows-the-stack:' + sigtail, desc))
-            if kind != 'new_task' and post.full_key() != pre.full_key():
+            if post.full_key() != pre.full_key():
                 rep.viol.append(('C15', 'C15:state-changed(%s):%s:%s' % (_diff_where(pre, post), type(exc).__name__, sigtail), desc))
             if eff.cls == CLASH and not (isinstance(exc, RuntimeError) and not isinstance(exc, RecursionError)):
                 rep.viol.append(('C05', 'C05:duplicate-rejected-with-%s:%s' % (type(exc).__name__, sigtail), desc))
@@ -548,6 +588,10 @@ def run_history(case, skip=None):
                 rep.viol.append(('C11', 'C11:task-still-owned-or-listed-after-WBS.remove-returned-True' +
                                  ('[after-earlier-violation]' if polluted else ''), dict(desc, tasks=still)))
         # ---- invariants on the real state, whether the call returned or raised
+        if post.alien:
+            rep.viol.append(('C01', 'C01:relation-lists-an-object-that-is-not-a-task:after:' + sigtail, dict(desc, types=post.alien)))
+            rep.cut = True
+            break
         for clause in graph.invariants(post):
             rep.viol.append((clause[:3], '%s:after:%s' % (clause, sigtail), desc))
         if not polluted and not any(p in ('C05', 'C11') for p, _, _ in rep.viol):
